@@ -1,10 +1,10 @@
 import Zed.Model.Sexp
 import Zed.Model.FuseShape
-import Zed.Model.FuseGood
+import Zed.Model.FuseFits
 /-!
   Driver glue for C20.
   `(C20 fuse <memMax> (T V nbytes) …)` →
-      `(<spilled 0|1> <fused type | nil> <agg type | nil> (<out> <guard 0|1>) …)`
+      `(<spilled 0|1> <fused type | nil> <agg type | nil> (<out> <guard 0|1> <fits 0|1>) …)`
   where `<out>` is `(v T V)`, `(e <error-class>)`, `panic` or `unsupported`, and `<guard>` says
   whether the hypothesis of `fuse_lossless_partial` (a cast-free covering plan into the fused
   type) holds for that input.
@@ -86,9 +86,11 @@ def handle : List Sexp → String
       | some f, some agg =>
         let outs := f.readAll
         let guards := guardAll f.schema xs
+        let fitsL := xs.map fun x => match f.schema with | some t => fits x.ty t | none => false
         toString (Sexp.list (
           .atom (if f.spill.isSome then "1" else "0") :: optTy f.schema :: optTy agg ::
-          (outs.zip guards).map fun (o, g) => .list [outStr o, .atom (if g then "1" else "0")]))
+          ((outs.zip guards).zip fitsL).map fun ((o, g), ft) =>
+            .list [outStr o, .atom (if g then "1" else "0"), .atom (if ft then "1" else "0")]))
       | _, _ => "fuel"
     | _, _ => "bad-op"
   | [.atom "merge", a, b] =>
